@@ -35,6 +35,8 @@ def _handle_run(self: events.Handle) -> None:
     pre = getattr(loop, "_before_cb", None)
     if pre is not None:
         pre(self)
+        if self._cancelled:  # whatever the hook injected cancelled this very callback
+            return
     _ORIG_HANDLE_RUN(self)
     hook = getattr(loop, "_after_cb", None)
     if hook is not None:
@@ -121,6 +123,7 @@ class VLoop(selector_events.BaseSelectorEventLoop):
         self._after_cb: Callable[[events.Handle], None] | None = None
         self._before_cb: Callable[[events.Handle], None] | None = None
         self.getaddrinfo_impl: Callable[..., Any] | None = None
+        self.error_hook: Callable[[dict[str, Any]], None] | None = None
         self.iterations = 0
         self.callbacks = 0
         self._installed = False
@@ -153,14 +156,16 @@ class VLoop(selector_events.BaseSelectorEventLoop):
 
     def _on_exception(self, loop: Any, context: dict[str, Any]) -> None:
         exc = context.get("exception")
-        self.errors.append(
-            {
-                "t": self._vtime,
-                "message": context.get("message"),
-                "exc_type": type(exc).__name__ if exc is not None else None,
-                "exc": exc,
-            }
-        )
+        entry = {
+            "t": self._vtime,
+            "message": context.get("message"),
+            "exc_type": type(exc).__name__ if exc is not None else None,
+            "exc": exc,
+            "is_timer": isinstance(context.get("handle"), events.TimerHandle),
+        }
+        self.errors.append(entry)
+        if self.error_hook is not None:
+            self.error_hook(entry)
 
     # --- driving ----------------------------------------------------------------------
     def install(self) -> None:
